@@ -10,7 +10,7 @@ package setec
 //@ pred entryOK(s *Store, n string) { has(s.active.m, n) ==> (s.active.m[n] != nil && allocated(s.active.m[n]) && s.active.m[n].Secret != nil && allocated(s.active.m[n].Secret)) }
 //@ pred storeInv(s *Store) { s != nil && allocated(s) && s.active.m != nil && s.active.f != nil && s.active.w != nil && allocated(s.active.m) && allocated(s.active.f) && allocated(s.active.w) &&
 //@      s.timeNow != nil && s.logf != nil &&
-//@      (forall n string :: entryOK(s, n)) && (forall n string :: has(s.active.f, n) ==> (has(s.active.m, n) && s.active.f[n] != nil)) && (forall n string :: has(s.active.w, n) ==> has(s.active.f, n)) }
+//@      (forall n string :: entryOK(s, n)) && (forall n string, k string :: (has(s.active.m, n) && has(s.active.m, k) && n != k) ==> s.active.m[n] != s.active.m[k]) && (forall n string :: has(s.active.f, n) ==> (has(s.active.m, n) && s.active.f[n] != nil)) && (forall n string :: has(s.active.w, n) ==> has(s.active.f, n)) }
 //@ pred sameEntries(s *Store) { forall n string :: has(s.active.m, n) == old(has(s.active.m, n)) && (has(s.active.m, n) ==> (s.active.m[n] == old(s.active.m[n]) && s.active.m[n].Secret == old(s.active.m[n].Secret))) }
 //@ pred handlesKept(s *Store) { forall n string :: old(has(s.active.f, n)) ==> (has(s.active.f, n) && s.active.f[n] == old(s.active.f[n])) }
 
@@ -171,6 +171,8 @@ package setec
 //@   requires storeInv(s) && !s.active.Mutex && (forall n string :: has(updates, n) ==> has(s.active.m, n)) && (forall n string :: (has(updates, n) && updates[n] != nil) ==> allocated(updates[n]))
 //@   ensures [C12 apply.inv] storeInv(s) && !s.active.Mutex && handlesKept(s) && net == old(net)
 //@   ensures [C19 apply.drops-only-marked-unreferenced] forall n string :: (old(has(s.active.m, n)) && !has(s.active.m, n)) ==> (has(updates, n) && updates[n] == nil && !has(s.active.f, n))
+//@   ensures [C11,C19 apply.drops-marked] forall n string :: (has(updates, n) && updates[n] == nil && !old(has(s.active.f, n))) ==> !has(s.active.m, n)
+//@   ensures [C13 apply.err-only-from-flush] err != nil ==> cacheWrites == old(cacheWrites) + 1
 //@   ensures [C12,C19 apply.no-additions] forall n string :: has(s.active.m, n) ==> old(has(s.active.m, n))
 //@   ensures [C11 apply.installs] forall n string :: (has(updates, n) && updates[n] != nil) ==> (has(s.active.m, n) && s.active.m[n].Secret == updates[n])
 //@   ensures [C12 apply.others-kept] forall n string :: (has(s.active.m, n) && !(has(updates, n) && updates[n] != nil)) ==> s.active.m[n].Secret == old(s.active.m[n].Secret)
@@ -180,6 +182,7 @@ package setec
 //@     invariant [state] storeInv(s) && s.active.Mutex && handlesKept(s) && net == old(net) && cacheWrites == old(cacheWrites)
 //@     invariant [drops] forall n string :: (old(has(s.active.m, n)) && !has(s.active.m, n)) ==> (visited(n) && has(updates, n) && updates[n] == nil && !has(s.active.f, n))
 //@     invariant [noadd] forall n string :: has(s.active.m, n) ==> old(has(s.active.m, n))
+//@     invariant [dropped] forall n string :: (visited(n) && updates[n] == nil && !old(has(s.active.f, n))) ==> !has(s.active.m, n)
 //@     invariant [installed] forall n string :: (visited(n) && updates[n] != nil) ==> (has(s.active.m, n) && s.active.m[n].Secret == updates[n])
 //@     invariant [kept] forall n string :: (has(s.active.m, n) && !(visited(n) && updates[n] != nil)) ==> s.active.m[n].Secret == old(s.active.m[n].Secret)
 //@     invariant [pending] forall n string :: (has(updates, n) && !visited(n)) ==> has(s.active.m, n)
